@@ -61,8 +61,13 @@ def gen_cases(rnd, n, lang):
                           'A': A, 'B': B if join else None, 'nkinds': 2, 'update': True})
             continue
         infos, texts = [], []
+        if mode == 'except' and rnd.random() < 0.35:
+            # a WIDE table: excluded positions such as 2 and 10 sort differently as numbers and as text
+            ih = ['c%d' % (k + 1) for k in range(rnd.choice([11, 12, 13]))]
+            A = [['r%dc%d' % (r, k) for k in range(len(ih))] for r in range(2)]
+            join = False
         if mode == 'except':
-            cols = sorted(set(rnd.randrange(len(ih)) for _ in range(rnd.randint(1, 2))))
+            cols = sorted(set(rnd.randrange(len(ih)) for _ in range(rnd.randint(1, 3 if len(ih) > 3 else 2))))
             text = 'select %s* except %s' % (rnd.choice(['', '', 'distinct count ', 'distinct ', 'top 2 ', 'top 2 distinct ', 'TOP 1 DISTINCT COUNT ']), ', '.join(rnd.choice(['a%d', 'a[%d]']) % (c + 1) for c in cols))
             dc = 'distinct count' in text.lower()
             cases.append({'text': text, 'dc': dc, 'ih': ih if has_header else None, 'jh': None, 'infos': [], 'except': cols, 'A': A, 'B': None, 'nkinds': 1})
